@@ -333,46 +333,56 @@ def plsPenalty (only2D : Bool) (α : K) (ip gz gy gx : Img K) : Img K := fun z y
   if only2D then Transc.sqrt (sq α + sq (gy z y x) + sq (gx z y x) - sq (ip z y x))
   else Transc.sqrt (sq α + sq (gz z y x) + sq (gy z y x) + sq (gx z y x) - sq (ip z y x))
 
+/-- the images computed by `compute_inner_product_and_penalty` (the C++ stores them in image-sized arrays) -/
+structure PlsFields (K : Type) where
+  gz : Img K
+  gy : Img K
+  gx : Img K
+  ip : Img K
+  pen : Img K
+
+/-- `PLSPrior::compute_inner_product_and_penalty` (PLSPrior.cxx:398-453) -/
+def plsFields (only2D : Bool) (α : K) (A : PlsAnat K) (b : Box) (img : Img K) : PlsFields K :=
+  let gz := plsGradElem b 0 img
+  let gy := plsGradElem b 1 img
+  let gx := plsGradElem b 2 img
+  let ip := plsInner only2D A gz gy gx
+  { gz := gz, gy := gy, gx := gx, ip := ip, pen := plsPenalty only2D α ip gz gy gx }
+
+/-- the summation loop of `PLSPrior::compute_value` (PLSPrior.cxx:481-514): `current = penalty[z][y][x]; if (do_kappa) current *= kappa[z][y][x]` -/
+def plsValueOf (pf : K) (F : PlsFields K) (κ : Option (Img K)) (b : Box) : K :=
+  (voxSum b fun z y x => match κ with | none => F.pen z y x | some k => F.pen z y x * k z y x) * pf
+
 /-- `PLSPrior::compute_value` (PLSPrior.cxx:455-515) -/
 def plsValue (only2D : Bool) (α pf : K) (A : PlsAnat K) (κ : Option (Img K)) (b : Box) (img : Img K) : K :=
-  if pf == 0 then 0
-  else
-    let gz := plsGradElem b 0 img
-    let gy := plsGradElem b 1 img
-    let gx := plsGradElem b 2 img
-    let ip := plsInner only2D A gz gy gx
-    let pen := plsPenalty only2D α ip gz gy gx
-    (voxSum b fun z y x => match κ with | none => pen z y x | some k => pen z y x * k z y x) * pf
+  if pf == 0 then 0 else plsValueOf pf (plsFields only2D α A b img) κ b
 
 /-- `(pet_im_grad[r] - anatomical_grad[r] * inner_product[r] / norm[r]) / penalty[r]`, the bracket that appears twice in
     every assignment of `PLSPrior::compute_gradient` (PLSPrior.cxx:583-629) -/
 def plsFlux (g a ip nrm pen : Img K) (z y x : Int) : K :=
   (g z y x - a z y x * ip z y x / nrm z y x) / pen z y x
 
-/-- `PLSPrior::compute_gradient` (PLSPrior.cxx:517-680).  `gradientx[z][y][x+1]`, `gradienty[z][y+1][x]`, `gradientz[z+1][y][x]` are
-    assigned only for voxels `(z,y,x)` that pass `!(x+1 > max_x || y+1 > max_y || (z+1 > max_z && !only_2D))`; all other
-    entries keep the 0 of `get_empty_copy()`. -/
+/-- the two loops of `PLSPrior::compute_gradient` (PLSPrior.cxx:557-667).  `gradientx[z][y][x+1]`, `gradienty[z][y+1][x]`,
+    `gradientz[z+1][y][x]` are assigned only for voxels `(z,y,x)` that pass
+    `!(x+1 > max_x || y+1 > max_y || (z+1 > max_z && !only_2D))`; all other entries keep the 0 of `get_empty_copy()`. -/
+def plsGradOf (only2D : Bool) (pf : K) (A : PlsAnat K) (F : PlsFields K) (κ : Option (Img K)) (b : Box) (z y x : Int) : K :=
+  let pass (z y x : Int) : Bool :=
+    !(decide (x + 1 > b.x1) || decide (y + 1 > b.y1) || (decide (z + 1 > b.z1) && !only2D))
+  let inImg (z y x : Int) : Bool :=
+    decide (b.z0 ≤ z) && decide (z ≤ b.z1) && decide (b.y0 ≤ y) && decide (y ≤ b.y1) && decide (b.x0 ≤ x) && decide (x ≤ b.x1)
+  let gradx : K := if inImg z y (x - 1) && pass z y (x - 1) then
+      plsFlux F.gx A.ax F.ip A.norm F.pen z y x - plsFlux F.gx A.ax F.ip A.norm F.pen z y (x - 1) else 0
+  let grady : K := if inImg z (y - 1) x && pass z (y - 1) x then
+      plsFlux F.gy A.ay F.ip A.norm F.pen z y x - plsFlux F.gy A.ay F.ip A.norm F.pen z (y - 1) x else 0
+  let gradz : K := if !only2D && inImg (z - 1) y x && pass (z - 1) y x then
+      plsFlux F.gz A.az F.ip A.norm F.pen z y x - plsFlux F.gz A.az F.ip A.norm F.pen (z - 1) y x else 0
+  let g : K := if only2D then -(grady + gradx) else -(gradz + grady + gradx)
+  let g := match κ with | none => g | some k => g * k z y x
+  g * pf
+
+/-- `PLSPrior::compute_gradient` (PLSPrior.cxx:517-680) -/
 def plsGrad (only2D : Bool) (α pf : K) (A : PlsAnat K) (κ : Option (Img K)) (b : Box) (img : Img K) (z y x : Int) : K :=
-  if pf == 0 then 0
-  else
-    let gz := plsGradElem b 0 img
-    let gy := plsGradElem b 1 img
-    let gx := plsGradElem b 2 img
-    let ip := plsInner only2D A gz gy gx
-    let pen := plsPenalty only2D α ip gz gy gx
-    let pass (z y x : Int) : Bool :=
-      !(decide (x + 1 > b.x1) || decide (y + 1 > b.y1) || (decide (z + 1 > b.z1) && !only2D))
-    let inImg (z y x : Int) : Bool :=
-      decide (b.z0 ≤ z) && decide (z ≤ b.z1) && decide (b.y0 ≤ y) && decide (y ≤ b.y1) && decide (b.x0 ≤ x) && decide (x ≤ b.x1)
-    let gradx : K := if inImg z y (x - 1) && pass z y (x - 1) then
-        plsFlux gx A.ax ip A.norm pen z y x - plsFlux gx A.ax ip A.norm pen z y (x - 1) else 0
-    let grady : K := if inImg z (y - 1) x && pass z (y - 1) x then
-        plsFlux gy A.ay ip A.norm pen z y x - plsFlux gy A.ay ip A.norm pen z (y - 1) x else 0
-    let gradz : K := if !only2D && inImg (z - 1) y x && pass (z - 1) y x then
-        plsFlux gz A.az ip A.norm pen z y x - plsFlux gz A.az ip A.norm pen (z - 1) y x else 0
-    let g : K := if only2D then -(grady + gradx) else -(gradz + grady + gradx)
-    let g := match κ with | none => g | some k => g * k z y x
-    g * pf
+  if pf == 0 then 0 else plsGradOf only2D pf A (plsFields only2D α A b img) κ b z y x
 
 end scalar
 
